@@ -237,3 +237,43 @@ Proof.
   - intro H. destruct (IH H) as (k' & v' & Hin & Hk & Hv).
     exists k', v'. split; [right; exact Hin|auto].
 Qed.
+
+(* ---- the whole transfer ---- *)
+Lemma pick_app_skip a b :
+  (forall k v, In (k, v) a -> lower k <> timeout_key) -> pick (a ++ b) = pick b.
+Proof.
+  induction a as [|[k v] a IH]; intro H; [reflexivity|].
+  cbn [app pick].
+  destruct (bytes_eqb (lower k) timeout_key) eqn:E.
+  - apply bytes_eqb_eq in E. exfalso. apply (H k v); [left; reflexivity|exact E].
+  - apply IH. intros k' v' Hin. apply (H k' v'). right. exact Hin.
+Qed.
+
+Lemma client_key_lower : lower client_timeout_key = timeout_key.
+Proof. vm_compute. reflexivity. Qed.
+
+Lemma sys_kinds_alike t0 t1 md dl : sys_deadline KUnary t0 t1 md dl = sys_deadline KStream t0 t1 md dl.
+Proof. reflexivity. Qed.
+
+Lemma sys_some k t0 t1 md r :
+  r <= maxInt64 ->
+  (forall k v, In (k, v) md -> lower k <> timeout_key) ->
+  sys_deadline k t0 t1 md (Some (t0 + r)) = Some (t1 + encode_ms r * 1000000).
+Proof.
+  intros Hr Hmd.
+  assert (E : server_deadline t1 (client_headers md (Some (t0 + r - t0))) = Some (t1 + encode_ms r * 1000000)).
+  { unfold server_deadline, client_headers. rewrite (pick_app_skip _ _ Hmd).
+    replace (t0 + r - t0) with r by lia.
+    cbn [pick]. rewrite client_key_lower, bytes_eqb_refl. rewrite (parse_encode r Hr). reflexivity. }
+  destruct k; exact E.
+Qed.
+
+Lemma sys_none k t0 t1 md :
+  (forall k v, In (k, v) md -> lower k <> timeout_key) ->
+  sys_deadline k t0 t1 md None = None.
+Proof.
+  intro Hmd.
+  assert (E : server_deadline t1 (client_headers md None) = None).
+  { unfold server_deadline, client_headers. rewrite app_nil_r. rewrite (pick_none _ Hmd). reflexivity. }
+  destruct k; exact E.
+Qed.
